@@ -9,7 +9,7 @@ plan = json.load(open(os.path.join(ROOT, "plan.json")))
 # id -> (technique, level text, level note, design ref)
 T = {
  "C01": ("differential execution: rapid-generated programs, reference interpreter over the program model vs. interpreter over the emitted assembly",
-         "Generated-input search (pgregory.net/rapid, shrinking, replay files): programs over the whole control-flow grammar are compiled (optimize off/on) and the emitted assembly is executed from every entry under many hashed game states; trace and finish must equal an independent small-step reference interpreter over the harness' own program model. Evidence counts programs and distinct non-trivial ones. No proof: held on N generated cases.",
+         "Generated-input search (pgregory.net/rapid, shrinking, replay files): programs over the whole control-flow grammar (incl. AutoVar conditions and hand-written goto_if_set/unset commands) are compiled (optimize off/on; a quarter with line markers on, judged on the stripped output) and the emitted assembly is executed from every entry under many hashed game states; trace and finish must equal an independent small-step reference interpreter over the harness' own program model. Evidence counts programs and distinct non-trivial ones. No proof: held on N generated cases.",
          "Trusted: the reference semantics in harness/refsem.go (written from the manual, validated on 10^5+ programs), the assembly interpreter's reading of the decomp control-flow macros, purity of condition tests, a 60-command horizon.", "DESIGN.md 10/C01"),
  "C02": ("truth-table oracle over generated boolean expressions + exhaustive small-scope enumeration",
          "For rapid-generated and exhaustively enumerated (<=3 leaves quick, <=4 thorough) expressions, EVERY truth assignment of the leaves is realised by a scripted world (vars below/at/above the comparison value) and the assembly's branch must equal the value of the written expression (and the reference run), optimize off/on, in if/elif/while/do-while contexts.",
@@ -21,7 +21,7 @@ T = {
          "Generated whole files (scripts incl. labels in dead code, inline data, mapscripts, texts, movements, marts, raw) are compiled and the parsed output is checked: labels unique, generated jump/case/map-script/hoisted references defined, user labels present once, no fall-through into data, another block or the end.",
          "Trusted: the assembly line parser; generated names are recognised by shape (<entry>_<n>, *_Text_<n>, *_Movement_<n>), which user names never have in the generated domain.", "DESIGN.md 10/C04"),
  "C05": ("metamorphic relation optimize on vs. off (differential execution + structural comparison)",
-         "For generated whole files the optimized and unoptimized outputs are executed against each other from every entry under hashed worlds, must define the same visible labels and data, consist of the same lines apart from generated gotos/sub-labels (never more gotos when optimized), and neither may contain a goto to the next line's label or an unreferenced generated sub-label.",
+         "For generated whole files the optimized and unoptimized outputs are executed against each other from every entry under hashed worlds, must define the same visible labels and data, consist of the same lines apart from generated gotos/sub-labels (never more gotos when optimized), and neither may contain a goto to the next line's label or an unreferenced generated sub-label; a program is accepted with -optimize exactly when it is accepted without.",
          "Trusted: assembly interpreter and parser; recognition of generated jumps by the shape of their target.", "DESIGN.md 10/C05"),
  "C06": ("model-based check of hoisted labels against an independent binding model",
          "Generated files with repeated inline texts / moves() across scripts, string types, format() and inline map scripts; the harness' own binding model (first appearance owns <script>_Text_<n>, per-script counters, file-wide sharing by (content,type)) predicts for every command argument slot the label and for every label its exact content; clash with user text/movement names must be rejected.",
@@ -54,7 +54,7 @@ T = {
          "Generated files with every top-level kind x {none, global, local}, in-script labels with and without modifiers and every kind of compiler-invented label; each label definition in the output is classified by the model and its '::' / ':' must match modifier, documented default or 'invented => local'.",
          "Trusted: the defaults table from the property statement.", "DESIGN.md 10/C15"),
  "C16": ("metamorphic relation (-lm vs. stripped) + model-based marker/source-span check under random layout",
-         "Generated whole files with unique content per construct printed under random layout (constructs spread over lines, comments, CRLF); markers stripped must give the -lm=false output byte for byte, no markers without a path, every marker names the path and a line inside the source span of the construct that follows it.",
+         "Generated whole files with unique content per construct printed under random layout (constructs spread over lines, comments, CRLF); markers stripped must give the -lm=false output byte for byte, no markers without a path, every marker names the path and a line inside the source span of the construct that follows it; no marker line in the -lm=false output; inside one movement or mart block the markers never go back.",
          "Trusted: printer's token positions (self-tested against the lexer); 'line of the construct' = any line of its span.", "DESIGN.md 10/C16"),
  "C17": ("repeatability, history independence (stateful generation, fresh-process oracle) and context-independence relations",
          "Every generated program is compiled repeatedly; rapid state-machine histories of compilations must give the results a fresh process gives for each compilation run first; each top-level statement compiled alone must emit the same block (modulo hoisted label numbering) as inside the full file.",
